@@ -60,6 +60,26 @@ def pattern_cases(rng, n):
     return [p for p in out if small_counts(p) and p.count("{") <= 6]
 
 
+def grammar_cases(rng, n):
+    """degenerate but syntactically valid grammars for the table construction: cycles through the start symbol, unit and empty
+    productions, non-terminals that derive nothing, duplicate alternatives, with and without directives"""
+    out = ['grammar g; start = start | "a";', 'grammar g; @left "a"; start = start | "a";', 'grammar g; start = a; a = start | "x";',
+           'grammar g; start = start;', 'grammar g; start = ;', 'grammar g; start = a b; a = ; b = ;', 'grammar g; start = a | a; a = "x";',
+           'grammar g; start = a; a = a;', 'grammar g; start = a; a = b; b = a | "x";', 'grammar g; @none "x"; start = start "x" | start | ;',
+           'grammar g; start = [ start ] "a";', 'grammar g; start = { start };', 'grammar g; start = {{ start }} | "a";']
+    nts = ["start", "a", "b"]
+    for _ in range(n):
+        rules = []
+        for nt in nts[:rng.choice([1, 2, 3])]:
+            alts = []
+            for _ in range(rng.choice([1, 2, 3])):
+                alts.append(" ".join(rng.choice(nts + ['"x"', '"y"']) for _ in range(rng.choice([0, 1, 1, 2]))))
+            rules.append("%s = %s;" % (nt, " | ".join(alts)))
+        d = rng.choice(["", '@left "x"; ', '@right "y"; ', '@none "x" "y"; '])
+        out.append("grammar g; " + d + " ".join(rules))
+    return out
+
+
 def explained(text):
     """is a crash attributed to a recorded finding?  Only by the frame that raised the panic (never by the message)."""
     for f in known_for("C14"):
@@ -105,6 +125,18 @@ def run(ctx):
                     continue
                 ctx.add_violation("%s %s on an input" % (what, {"PANIC": "panicked", "CRASH": "crashed or did not terminate", "NILNIL": "returned success with a nil result", "ERR+VALUE": "returned a value together with an error"}.get(c, c)),
                                   {"entry": cmd, "input_hex": hx(s), "input": s[:200].decode("utf-8", "replace"), "implementation": decode_hex_fields(r)[:600]})
+    # the table construction on degenerate grammars
+    gcases = grammar_cases(rng, 300 if quick else 4000)
+    stats["grammar_inputs"] = len(gcases)
+    for g, r in zip(gcases, ctx.run_impl_par("lalr", [hx(g.encode()) for g in gcases], timeout=900, isolate=True)):
+        distinct.add(g.encode())
+        k = r.split(" ", 1)[0]
+        if k in ("PANIC", "CRASH", "NILNIL", "CONFLICT+TABLE"):
+            if explained(decode_hex_fields(r)):
+                stats["explained_by_known_findings"] = stats.get("explained_by_known_findings", 0) + 1
+                continue
+            ctx.add_violation("LALRParsingTable %s on a grammar" % {"PANIC": "panicked", "CRASH": "crashed or did not terminate"}.get(k, "returned " + k),
+                              {"entry": "lalr", "input": g, "input_hex": hx(g.encode()), "implementation": decode_hex_fields(r)[:600]})
     # outcome class of spec.Parse against the total Lean model (texts that are valid UTF-8 without NUL)
     texts = [s for s in specs if b"\x00" not in s and len(s) < 2000]
     try:
